@@ -3120,7 +3120,7 @@ class UTPM(Ring, RawAlgorithmsMixIn):
             # hackish way to check that the input length of v makes sense
             raise ValueError('size of v does not match any possible symmetric matrix')
         N = (int(tmp) - 1)//2
-        A = cls(numpy.zeros((D,P,N,N)))
+        A = cls(numpy.zeros((D,P,N,N), dtype=v.data.dtype))
 
         count = 0
         for row in range(N):
